@@ -2,7 +2,7 @@
 """tools/seeded_keep.py <id> <slug> <breaks> <needs> <caught_by> <ran...>  -- store a confirmed seeded change under seeded/<id>-<slug>/"""
 import sys, os, shutil, json
 pid, slug, needs, caught, ran = sys.argv[1], sys.argv[2], sys.argv[3], sys.argv[4], sys.argv[5:]
-src = "/tmp/mut-%s/MUTANT" % (sys.argv[6] if False else pid)
+src = os.environ.get("MUT_SRC", "/tmp/mut-%s" % pid) + "/MUTANT"
 V = os.path.dirname(os.path.dirname(os.path.abspath(__file__)))
 d = os.path.join(V, "seeded", "%s-%s" % (pid, slug))
 os.makedirs(d, exist_ok=True)
